@@ -10,6 +10,7 @@ import (
 	"fmt"
 	"io"
 	"net"
+	"net/netip"
 	"os"
 	"path/filepath"
 	"strings"
@@ -17,6 +18,7 @@ import (
 	"time"
 
 	"github.com/talostrading/sonic"
+	"github.com/talostrading/sonic/multicast"
 	"github.com/talostrading/sonic/sonicerrors"
 	"github.com/talostrading/sonic/sonicopts"
 	"pgregory.net/rapid"
@@ -35,6 +37,7 @@ const (
 	kRegFile  objKind = "regularFile"
 	kListener objKind = "listener"
 	kPacket   objKind = "packetConn"
+	kMcast    objKind = "multicastPeer"
 )
 
 func (k objKind) stream() bool {
@@ -84,6 +87,7 @@ type wobj struct {
 	netc       net.Conn
 	ln         sonic.Listener
 	pc         sonic.PacketConn
+	mp         *multicast.UDPPeer
 	rawFd      int
 	peer       int
 	peerGone   string // "", "closed", "reset", "shutwr"
@@ -139,6 +143,8 @@ type world struct {
 	multiSegment                                                               bool
 	cleanup                                                                    []func()
 	postHook                                                                   func(from string)
+	onComplete                                                                 func(p *wop)
+	linkHook                                                                   func(p *wop) // called with the new op before it is issued
 }
 
 type wtimer struct {
@@ -372,6 +378,21 @@ func (w *world) addObject(kind objKind) *wobj {
 		o.pc, o.peer, o.canRead, o.canWrite = pc, p, true, true
 		o.peerUDP = &net.UDPAddr{IP: net.IPv4(127, 0, 0, 1).To4(), Port: port}
 	}
+	if kind == kMcast {
+		mp, err := multicast.NewUDPPeer(w.ioc, "udp", "127.0.0.1:0")
+		if err != nil {
+			w.rt.Fatalf("INFRA: NewUDPPeer: %v", err)
+		}
+		p, err := syscall.Socket(syscall.AF_INET, syscall.SOCK_DGRAM|syscall.SOCK_NONBLOCK|syscall.SOCK_CLOEXEC, 0)
+		if err != nil {
+			w.rt.Fatalf("INFRA: socket: %v", err)
+		}
+		_ = syscall.Bind(p, &syscall.SockaddrInet4{Addr: [4]byte{127, 0, 0, 1}})
+		_, port, _ := sysx.LocalAddr4(p)
+		o.mp, o.peer, o.canRead, o.canWrite = mp, p, true, true
+		o.peerUDP = &net.UDPAddr{IP: net.IPv4(127, 0, 0, 1).To4(), Port: port}
+		o.rawFd = mp.NextLayer().RawFd()
+	}
 	switch {
 	case o.st != nil:
 		o.rawFd = o.st.RawFd()
@@ -411,9 +432,9 @@ func (w *world) canStart(o *wobj, kind string) bool {
 	case "accept":
 		return o.kind == kListener && o.rd == nil
 	case "readFrom":
-		return o.kind == kPacket && o.rd == nil
+		return (o.kind == kPacket || o.kind == kMcast) && o.rd == nil
 	case "writeTo":
-		return o.kind == kPacket && o.wr == nil
+		return (o.kind == kPacket || o.kind == kMcast) && o.wr == nil
 	}
 	return false
 }
@@ -422,7 +443,7 @@ func opKindsFor(k objKind) []string {
 	switch k {
 	case kListener:
 		return []string{"accept"}
-	case kPacket:
+	case kPacket, kMcast:
 		return []string{"readFrom", "writeTo"}
 	case kFifoR, kRegFile:
 		return []string{"read", "readAll"}
@@ -448,6 +469,11 @@ func (w *world) startOp(o *wobj, kind string, size int, prog []whop, from string
 		}
 	}
 	p := w.newOp(o, kind, size, prog)
+	if w.linkHook != nil {
+		h := w.linkHook
+		w.linkHook = nil
+		h(p)
+	}
 	isRead := kind == "read" || kind == "readAll" || kind == "accept" || kind == "readFrom"
 	if isRead {
 		o.rd = p
@@ -484,6 +510,15 @@ func (w *world) startOp(o *wobj, kind string, size int, prog []whop, from string
 			w.complete(p, err, 0)
 		})
 	case "readFrom":
+		if o.mp != nil {
+			o.mp.AsyncRead(p.buf, func(err error, n int, ap netip.AddrPort) {
+				if ap.IsValid() {
+					p.addr = net.UDPAddrFromAddrPort(ap)
+				}
+				w.complete(p, err, n)
+			})
+			break
+		}
 		o.pc.AsyncReadFrom(p.buf, func(err error, n int, addr net.Addr) {
 			p.addr = addr
 			w.complete(p, err, n)
@@ -491,6 +526,10 @@ func (w *world) startOp(o *wobj, kind string, size int, prog []whop, from string
 	case "writeTo":
 		for i := range p.buf {
 			p.buf[i] = byte(p.id + i)
+		}
+		if o.mp != nil {
+			o.mp.AsyncWrite(p.buf, o.peerUDP.AddrPort(), func(err error, n int) { w.complete(p, err, n) })
+			break
 		}
 		o.pc.AsyncWriteTo(p.buf, o.peerUDP, func(err error) { w.complete(p, err, len(p.buf)) })
 	}
@@ -542,6 +581,9 @@ func (w *world) complete(p *wop, err error, n int) {
 		w.fail("Cancel completed op #%d (%s on %s) with %v, want a cancellation error", p.id, p.kind, o.name(), err)
 	}
 	w.account(p, err, n)
+	if w.onComplete != nil {
+		w.onComplete(p)
+	}
 	if !w.quiesce {
 		w.runHops(p)
 	}
@@ -742,6 +784,8 @@ func (w *world) closeObj(o *wobj, from string) {
 		_ = o.ln.Close()
 	case o.pc != nil:
 		_ = o.pc.Close()
+	case o.mp != nil:
+		_ = o.mp.Close()
 	}
 }
 
@@ -853,7 +897,7 @@ func (w *world) peerConnect(o *wobj) {
 }
 
 func (w *world) peerSend(o *wobj, k int) {
-	if o.kind != kPacket || o.closed {
+	if (o.kind != kPacket && o.kind != kMcast) || o.closed {
 		return
 	}
 	b := make([]byte, k)
